@@ -54,22 +54,22 @@ func envInt(k string, def int) int {
 }
 
 type replayFile struct {
-	Property string   `json:"property"`
-	Tier     string   `json:"tier"`
-	BaseSeed uint64   `json:"verif_seed"`
-	Index    int      `json:"index"`
-	RunSeed  uint64   `json:"run_seed"`
-	Flavor   string   `json:"build_flavor"`
-	Choices  []uint64 `json:"choices"`
-	Clause   string   `json:"clause"`
-	Key      string   `json:"key"`
-	Detail   string   `json:"detail"`
-	Digest   string   `json:"digest"`
-	Trace    []string `json:"trace,omitempty"`
-	Sample   any      `json:"scenario,omitempty"`
-	Minimised bool    `json:"minimised"`
-	ShrinkRuns int    `json:"shrink_runs"`
-	OrigLen  int      `json:"original_choice_count"`
+	Property   string   `json:"property"`
+	Tier       string   `json:"tier"`
+	BaseSeed   uint64   `json:"verif_seed"`
+	Index      int      `json:"index"`
+	RunSeed    uint64   `json:"run_seed"`
+	Flavor     string   `json:"build_flavor"`
+	Choices    []uint64 `json:"choices"`
+	Clause     string   `json:"clause"`
+	Key        string   `json:"key"`
+	Detail     string   `json:"detail"`
+	Digest     string   `json:"digest"`
+	Trace      []string `json:"trace,omitempty"`
+	Sample     any      `json:"scenario,omitempty"`
+	Minimised  bool     `json:"minimised"`
+	ShrinkRuns int      `json:"shrink_runs"`
+	OrigLen    int      `json:"original_choice_count"`
 }
 
 func emit(w *bufio.Writer, r *Result) {
@@ -114,6 +114,7 @@ func TestWorker(t *testing.T) {
 		r := &Result{Prop: prop.ID, Index: rf.Index, Seed: rf.RunSeed}
 		fmt.Fprintf(out, "S %d\n", rf.Index)
 		out.Flush()
+		fmt.Fprintf(os.Stderr, "S %d\n", rf.Index)
 		prop.Run(t, c, r, opt)
 		if r.Outcome == "" {
 			r.Outcome = "ok"
@@ -131,11 +132,14 @@ func TestWorker(t *testing.T) {
 		r := &Result{Prop: prop.ID, Index: i, Seed: seed}
 		fmt.Fprintf(out, "S %d\n", i)
 		out.Flush()
+		if prop.OnStderr != nil {
+			fmt.Fprintf(os.Stderr, "S %d\n", i)
+		}
 		prop.Run(t, c, r, opt)
 		if r.Outcome == "" {
 			r.Outcome = "ok"
 		}
-		if r.Outcome == "violation" || r.Outcome == "harness" {
+		if r.Outcome == "violation" || r.Outcome == "harness" || prop.OnStderr != nil {
 			r.Choices = c.Rec
 		}
 		emit(out, r)
@@ -394,6 +398,9 @@ func parentMain() int {
 				s, n := j.start, j.count
 				for n > 0 {
 					wr := spawn(propID, tier, base, s, n, nil, perRun+time.Duration(n)*2*time.Second)
+					if prop.OnStderr != nil {
+						prop.OnStderr(wr.stderr, wr.results, func(k string) { a.mu.Lock(); a.probes[k]++; a.mu.Unlock() })
+					}
 					done := 0
 					for _, r := range wr.results {
 						a.add(r)
@@ -555,6 +562,9 @@ func runChoices(prop *Prop, tier string, rf *replayFile, trace bool) *Result {
 		cmd.Env = append(cmd.Env, "VERIF_TRACE=1")
 	}
 	wr := runWorker(cmd, 90*time.Second)
+	if prop.OnStderr != nil {
+		prop.OnStderr(wr.stderr, wr.results, func(string) {})
+	}
 	if len(wr.results) == 1 {
 		return wr.results[0]
 	}
@@ -729,32 +739,32 @@ func writeEvidence(prop *Prop, tier string, base uint64, a *agg, wall float64, v
 		samples = []any{map[string]any{"note": "no sample recorded"}}
 	}
 	cov := map[string]any{
-		"evaluations":          a.evals,
-		"cases":                a.results,
-		"distinct_nontrivial":  dn,
-		"rule":                 prop.Rule,
-		"samples":              samples,
-		"distinct_digests":     len(a.digests),
-		"outcomes":             a.outcomes,
-		"faults_fired":         a.fired,
-		"probes":               a.probes,
-		"config_cells":         a.cells,
-		"decisions_total":      a.steps,
-		"context_switches":     a.switches,
-		"simulated_time_s":     float64(a.simMs) / 1000,
-		"runs_per_hour":        int(float64(a.results) / wall * 3600),
+		"evaluations":                a.evals,
+		"cases":                      a.results,
+		"distinct_nontrivial":        dn,
+		"rule":                       prop.Rule,
+		"samples":                    samples,
+		"distinct_digests":           len(a.digests),
+		"outcomes":                   a.outcomes,
+		"faults_fired":               a.fired,
+		"probes":                     a.probes,
+		"config_cells":               a.cells,
+		"decisions_total":            a.steps,
+		"context_switches":           a.switches,
+		"simulated_time_s":           float64(a.simMs) / 1000,
+		"runs_per_hour":              int(float64(a.results) / wall * 3600),
 		"max_yield_sites_in_one_run": a.sitesMax,
 		"max_site_pairs_in_one_run":  a.pairsMax,
-		"determinism_spot_check": map[string]int{"runs_repeated_in_fresh_process": detChecked, "mismatches": detBad},
-		"workers":              workers,
+		"determinism_spot_check":     map[string]int{"runs_repeated_in_fresh_process": detChecked, "mismatches": detBad},
+		"workers":                    workers,
 		"components": map[string]string{
-			"ch, chpool":                   "real code, yields woven into a scratch copy at check time",
-			"proto, compress, otelch":      "real code, unmodified",
+			"ch, chpool":              "real code, yields woven into a scratch copy at check time",
+			"proto, compress, otelch": "real code, unmodified",
 			"puddle, errgroup, context, zap, otel, lz4, zstd, city, uuid": "real code (uuid with a seeded source)",
-			"clock and timers":             "testing/synctest fake clock (engine A); none (engine B)",
-			"TCP connection, dialer":       "simulated (simnet)",
-			"ClickHouse server":            "scripted reference server over the independent codec refproto",
-			"toolchain":                    runtime.Version(),
+			"clock and timers":       "testing/synctest fake clock (engine A); none (engine B)",
+			"TCP connection, dialer": "simulated (simnet)",
+			"ClickHouse server":      "scripted reference server over the independent codec refproto",
+			"toolchain":              runtime.Version(),
 		},
 	}
 	if len(a.siteSet) > 0 {
